@@ -280,4 +280,140 @@ def run(repo='/repo', tier='quick'):
                       '%s takes the decoder configuration from %s although it has the transaction: a transaction with its own configuration (htp_tx_set_config) is decoded with the connection\'s settings' % (n_, src), node.get('loc', g.loc))
     res.floor('C12.e', 'decoder configuration sources in functions that have a tx', nsrc, 4)
     res.assumptions.append('equality with the documented pipeline on values, idempotence and "no dot segment remains" are not decided')
+    c12f(db, res)
+    c12g(db, res)
     return res
+
+
+def _hex_offsets(db, callee, seen=()):
+    """offsets (relative to its pointer parameter) of the bytes a hex decoder reads as hex digits: x2c(p) reads p[0], p[1]"""
+    if callee == 'x2c':
+        return {0, 1}
+    f = db.fn.get(callee)
+    if f is None or callee in seen:
+        return None
+    ptrs = [p['name'] for p in f.params if 'char *' in p['t']]
+    out = set()
+    for b, i, c in f.calls():
+        sub = _hex_offsets(db, c.get('callee'), seen + (callee,)) if c.get('callee') in ('x2c',) or (c.get('callee') or '').startswith('decode_u_encoding') else None
+        if sub is None:
+            continue
+        a = strip(c['args'][0] if c['callee'] == 'x2c' else [x for x in c['args'] if 'char *' in (strip(x) or {}).get('t', '')][0])
+        k = None
+        if a.get('k') == 'var' and a['name'] in ptrs:
+            k = 0
+        elif a.get('k') == 'bin' and a['op'] == '+' and strip(a['l']).get('k') == 'var' and strip(a['l'])['name'] in ptrs and is_lit(strip(a['r'])):
+            k = strip(a['r'])['v']
+        elif a.get('k') == 'un' and a['op'] == '&' and strip(a['e']).get('k') == 'index' and is_lit(strip(strip(a['e'])['idx'])):
+            k = strip(strip(a['e'])['idx'])['v']
+        if k is None:
+            return None
+        out |= {k + o for o in sub}
+    return out or None
+
+
+def c12f(db, res):
+    """Valid encodings only: %HH / %uHHHH are decoded as valid only when every byte read as a hex digit was tested with
+    isxdigit on the way; decoding unvalidated bytes is confined to the arms selected by url_encoding_invalid_handling."""
+    from .. import guards as G
+    res.rule('C12.f', 'hex validation covers exactly the decoded bytes: at every call of x2c / decode_u_encoding_* each byte the callee reads as a hex digit was tested isxdigit() on a dominating edge, unless the call sits in an arm selected by url_encoding_invalid_handling (process-invalid mode)')
+    n = 0
+    for name, f in sorted(db.fn.items()):
+        for b, i, c in f.calls():
+            cal = c.get('callee') or ''
+            if not (cal == 'x2c' or cal.startswith('decode_u_encoding')) or name.startswith('decode_u_encoding'):
+                continue
+            offs = _hex_offsets(db, cal)
+            ptr = [x for x in c['args'] if 'char *' in (strip(x) or {}).get('t', '')]
+            a = strip(ptr[0]) if ptr else None
+            if offs is None or a is None or a.get('k') != 'un' or a['op'] != '&' or strip(a['e']).get('k') != 'index':
+                res.unknown('C12.f', '%s:%s' % (name, P.K(c)[:50]), 'hex decoder called with an argument shape that is not &A[E]', c['loc'])
+                continue
+            n += 1
+            A, t = P.K(strip(a['e'])['base']), G.term(strip(a['e'])['idx'])
+            need = {(A, t[0], t[1] + o) for o in offs} if t else None
+            checked, invalid_arm = set(), False
+            for atom, (cb, j) in P.facts_at(f, b):
+                if atom[0].endswith('url_encoding_invalid_handling'):
+                    invalid_arm = True
+                cond = f.blocks[cb]['stmts'][-1] if f.blocks[cb]['stmts'] else None
+                if cond is None or not (atom[1] == '!=' and atom[2] == '0'):
+                    continue
+                for m in nodes(cond, lambda y: y.get('k') == 'bin' and y['op'] == '&' and is_lit(strip(y['r']), 4096)):
+                    for ix in nodes(m['l'], lambda y: y.get('k') == 'index' and 'ctype' not in P.K(y['base'])):
+                        tt = G.term(ix['idx'])
+                        if tt:
+                            checked.add((P.K(ix['base']), tt[0], tt[1]))
+            key = '%s:%s' % (name, P.K(c)[:60]) + (':process-invalid' if invalid_arm else '')
+            if need is not None and need <= checked:
+                res.holds('C12.f', key, 'isxdigit() was tested on offsets %s' % sorted(o for _, _, o in need), c['loc'])
+            elif invalid_arm:
+                res.holds('C12.f', key, 'in an arm selected by url_encoding_invalid_handling (decoding of invalid digits is the configured behaviour)', c['loc'])
+            else:
+                miss = sorted(o for (_, _, o) in (need or set()) - checked)
+                res.violated('C12.f', key, 'decodes bytes at offsets %s of %s as hex digits without an isxdigit() test on them (tested: %s): an invalid encoding is accepted as valid, decoded to a garbage byte and the invalid-encoding indicator is not raised'
+                             % (miss, A, sorted(o for _, _, o in checked)), c['loc'])
+    res.floor('C12.f', 'hex decode call sites', n, 8)
+
+
+def c12g(db, res):
+    """UTF-8 scanners count the bytes of the current character (overlong = more bytes than the code point needs). The
+    count is only meaningful if it restarts at every character boundary: whenever an iteration leaves the decoder in the
+    ACCEPT state (the decoder accepted, or the scanner reset it after a reject) the byte counter is set back to 0."""
+    res.rule('C12.g', 'UTF-8 character boundaries: in every scanner loop over htp_utf8_decode_allow_overlong, each iteration path that ends with the decoder state ACCEPT (accept arm, or state reset after reject) resets the byte counter to 0, and the continuation arm does not')
+    n = 0
+    for name, f in sorted(db.fn.items()):
+        for b, blk in f.blocks.items():
+            if blk.get('term', {}).get('kind') != 'SwitchStmt' or not blk['stmts']:
+                continue
+            sc = strip(blk['stmts'][-1])
+            if sc is None or sc.get('k') != 'call' or sc.get('callee') != 'htp_utf8_decode_allow_overlong':
+                continue
+            a0 = strip(sc['args'][0])
+            if a0.get('k') != 'un' or a0['op'] != '&' or strip(a0['e']).get('k') != 'var':
+                continue
+            st_var = strip(a0['e'])['name']
+            accept = None
+            for bb, ii, s2 in f.stmts():
+                for d in nodes(s2, lambda y: y.get('k') == 'decl'):
+                    for v in d['vars']:
+                        if v['name'] == st_var and 'init' in v and is_lit(strip(v['init'])):
+                            accept = strip(v['init'])['v']
+            inner = [body for h, body in C.loops(f) if b in body]
+            if accept is None or not inner:
+                continue
+            body = min(inner, key=len)
+            incs = {}
+            for bb in body:
+                for s2 in f.blocks[bb]['stmts']:
+                    for u in nodes(s2, lambda y: y.get('k') == 'un' and y['op'] in ('++', '++post') and strip(y['e']).get('k') == 'var'):
+                        incs.setdefault(strip(u['e'])['name'], []).append(bb)
+            dom = C.dominators(f)
+            cnt = [v for v, bs in incs.items() if len(bs) == 1 and bs[0] in dom[b]]
+            if len(cnt) != 1:
+                res.unknown('C12.g', name + ':counter', 'no single per-byte counter found in the scanner loop', blk['stmts'][-1]['loc'])
+                continue
+            cnt = cnt[0]
+            n += 1
+            arms = {}
+            for atoms, events, end, seq in P.enum_paths_seq(f, (b, len(blk['stmts']) - 1), max_paths=20000):
+                if not atoms or atoms[0][0][1] != 'case':
+                    continue
+                arm = atoms[0][0][2]
+                reset_state = any(x[0] == 'stmt' and any(y['k'] == 'assign' and y['op'] == '=' and strip(y['l']).get('k') == 'var' and strip(y['l'])['name'] == st_var and is_lit(strip(y['r']), accept)
+                                                          for y in nodes(x[3])) for x in seq)
+                reset_cnt = any(x[0] == 'stmt' and any(y['k'] == 'assign' and y['op'] == '=' and strip(y['l']).get('k') == 'var' and strip(y['l'])['name'] == cnt and is_lit(strip(y['r']), 0)
+                                                        for y in nodes(x[3])) for x in seq)
+                boundary = arm == str(accept) or reset_state
+                if end[0] in ('loop',) or (end[0] in ('exit', 'return') and False):
+                    arms.setdefault((arm, boundary), []).append(reset_cnt)
+            for (arm, boundary), rs in sorted(arms.items()):
+                label = 'accept' if arm == str(accept) else 'continuation' if arm == 'default' else 'case-%s' % arm
+                key = '%s:%s-arm:%s' % (name, label, 'boundary' if boundary else 'inside-character')
+                if boundary:
+                    res.check(all(rs), 'C12.g', key, '%s = 0 on all %d iteration paths that end at a character boundary' % (cnt, len(rs)),
+                              'an iteration of %s ends with the decoder back in the ACCEPT state but leaves the byte counter %s running: the next character is counted too long and a plain byte after an invalid one is reported as an overlong sequence' % (name, cnt), blk['stmts'][-1]['loc'])
+                else:
+                    res.check(not any(rs), 'C12.g', key, '%s keeps counting inside a character' % cnt,
+                              'the byte counter is reset in the middle of a multi-byte character: overlong forms are no longer recognised', blk['stmts'][-1]['loc'])
+    res.floor('C12.g', 'UTF-8 scanner loops', n, 2)
